@@ -49,6 +49,10 @@ PROPS = {
                 trusted_base=TB + ["spec/fs.py"],
                 explanation="clauses 1-4 of the property are proved; clause 5 (a PIN that opens the device is always recoverable) fails on the unchanged tree: known finding C10-a, reproduced natively on every run",
                 extras=[_c10a_replay]),
+    "C17": dict(level="proof", assumptions=COMMON + ["A-KECCAK", "str.lower / int(str) / ascii encoding as uninterpreted functions",
+                                                       "scope: message text and EIP-191 wrapping, digest wiring, constructor refusals, the device exchange; "
+                                                       "sign-then-verify (secp256k1) and the file save/load round trip are NOT covered (DESIGN 5.C17)"],
+                trusted_base=TB, explanation="string obligations are syntactic equalities of SMT string terms; the signature loop has an inductive invariant"),
     "C13": dict(level="proof", assumptions=COMMON + [A_FW], trusted_base=TB + ["spec/firmware.py"],
                 explanation="reply fields are equated with the answers recorded in the ghost log, selectors from the firmware headers"),
 }
